@@ -181,7 +181,7 @@ def run(ctx):
     ]
     all26 = set(range(1, 27))
     # ---- direction A ---------------------------------------------------------------
-    aidx = set(rnd.sample(range(1, 27), 10)) if q else all26
+    aidx = set(rnd.sample(range(1, 27), 12)) if q else all26
     r = ctx.tlc("Gen_Intersect", vlib.cfg(constants={"N": 1, "AIdx": aidx, "SubIdx": all26}, invariants=GEN_INV),
                 workers=8, timeout=1200)
     cases = r.tagged.get("CASE", [])
@@ -197,7 +197,7 @@ def run(ctx):
             ctx.replay(r.tagged.get("CASE", []))
     # ---- direction B ---------------------------------------------------------------
     for k in range(1 if q else 6):
-        events = trace_direction(ctx, "Trace_Intersect", "c16", "c16", 30000 if q else 100000, _case_of,
+        events = trace_direction(ctx, "Trace_Intersect", "c16", "c16", 40000 if q else 100000, _case_of,
                                  lambda e: e["cls"] != "random" or not e["st"], _detail, key_of=_key_of,
                                  seed=ctx.seed * 1000 + k)
         ctx.counters["float_stable_accepted"] = ctx.counters.get("float_stable_accepted", 0) + sum(1 for e in events if e["st"])
